@@ -114,6 +114,12 @@ WithFee(r, fee) == [r EXCEPT !.ta = RAmt(r) + fee]
 \* ill-formed: an MPP record in a blinded payment (verifyAttempt refuses it)
 BlindMppR(pre, len, tot, amt, addr) == LET f(hp) == [hp EXCEPT !.ma = addr, !.mt = tot] IN OnFinal(BlindR(pre, len, tot, amt), f)
 
+\* ill-formed but stored: an AMP record without an MPP record (counts as a
+\* single-shot attempt); an introduction node followed by a final hop that is
+\* not blinded (counts as not blinded: "blinded" is read off the final hop)
+AmpOnlyR(n, amt, k) == LET f(hp) == [hp EXCEPT !.amp = k] IN OnFinal(SingleR(n, amt), f)
+HalfBlindR(tot, amt) == [MppR(2, 1, tot, amt) EXCEPT !.hops[1].enc = 1, !.hops[1].bp = 1]
+
 \* a name for reports
 ShapeName(r) ==
   IF NHops(r) = 0 THEN ""
@@ -136,7 +142,8 @@ Store(d) == [d EXCEPT !.hops = [i \in 1..NHops(d) |-> StoreHop(d.hops[i])]]
 (* (also exceeding, other address, other total); AMP shards; blinded paths   *)
 (* of length 1..3 behind 0..2 plain hops - length 1 is the hop that is both  *)
 (* introduction node and final hop; other / missing blinded total; MPP record*)
-(* in a blinded route; custom records, metadata, first-hop data, zero fee.   *)
+(* in a blinded route, AMP without MPP, half-blinded route; custom records,  *)
+(* metadata, first-hop data, zero fee.                                       *)
 RouteUniverse ==
   LET singles == {SingleR(n, a) : n \in 1..3, a \in 1..Value}
       mpps    == {MppR(n, 1, Value, a) : n \in 1..3, a \in 1..(Value + 1)}
@@ -144,7 +151,8 @@ RouteUniverse ==
       amps    == {AmpR(n, 1, Value, 1, k) : n \in 1..2, k \in 1..2}
       blinds  == {BlindR(pl[1], pl[2], Value, a) : pl \in {<<0,1>>, <<1,1>>, <<2,1>>, <<0,2>>, <<1,2>>, <<0,3>>}, a \in 1..Value}
                  \cup {BlindR(0, 1, Value + 1, 1), BlindR(1, 2, Value + 1, 1), BlindR(0, 1, 0, 1), BlindR(0, 2, 0, 1)}
-      ill     == {BlindMppR(0, 1, Value, 1, 1), BlindMppR(1, 2, Value, 1, 1)}
+      ill     == {BlindMppR(0, 1, Value, 1, 1), BlindMppR(1, 2, Value, 1, 1),
+                  AmpOnlyR(2, Value, 1), AmpOnlyR(1, 1, 2), HalfBlindR(Value, 1)}
       decor   == {WithCr(MppR(2, 1, Value, 1), 1, 1), WithCr(MppR(2, 1, Value, 1), 2, 2),
                   WithMd(MppR(2, 1, Value, 1), 1), WithMd(SingleR(1, Value), 2),
                   WithCr(BlindR(0, 1, Value, 1), 1, 1), WithCr(BlindR(1, 2, Value, 1), 2, 1),
